@@ -5,6 +5,10 @@ V = os.path.dirname(os.path.dirname(os.path.abspath(__file__)))
 
 # id -> (technique, level text, level note, design ref)
 CHECKS = {
+ "C18": ("proptest SGR streams x chunkings x drivers against a recording console and scripted faulty consoles, on the working-tree source of the Windows-only stream included by path; oracle = reference SGR interpreter with the stated colour reduction; exhaustive pairs of attribute groups",
+         "Model-based generated-input search: the calls received by a recording implementation of anstyle_wincon::WinconStream, flattened to (fg, bg, byte), must equal the reference terminal's per-character styles reduced to the 16-colour palette; no escape byte may be handed over; with scripted short counts/errors write_all and write! must hand everything over exactly once or fail with the injected kind.",
+         "Trusted: shims of crate::stream::{AsLockedWrite, IsTerminal} (the module is not built by its own crate on this platform), R-VT/R-SGR. write() against short counts/errors is an open known finding (F14, F14b), excluded by construction and replayed as fixed inputs.",
+         "DESIGN.md §4-C18, §5"),
  "C16": ("exhaustive colours per slot x covering effect sets, all effect sets x covering colours, proptest random styles, per adapter; value-level oracle (independently typed mapping through the target library's constructors) and render-level oracle (target library's own output interpreted by the reference SGR interpreter)",
          "Generated-input search with two oracles per adapter: equality with an independently constructed target value, and a round trip through the target library's own renderer into the reference SGR interpreter, compared with the input projected on an explicit table of what the target can express. All 16+256 colours and a 9^3 RGB lattice per slot and all 4096 effect sets are enumerated.",
          "Trusted: the five third-party libraries' constructors/renderers (render layer only applied where the library renders the harness-built value as the projection predicts; owo-colors 4.0.0's missing ';' is documented and those cases are decided at value level), the expressibility table in the check.",
